@@ -1,6 +1,7 @@
 package props
 
 import (
+	"bytes"
 	"crypto/elliptic"
 	"fmt"
 
@@ -86,6 +87,12 @@ func runC20(c *core.Ctx) {
 		// a few longer names in the quick tier too
 		lengths = append(lengths, 255, 256, 257, 258, 511, 512, 513, 1000, 1024, 4096, 4128)
 	}
+	// the longest names the wire format can carry: the encrypted request is a 16-bit length-prefixed string, which leaves
+	// 2038 blocks (65216 bytes) for the padded name; the last two blocks' worth of lengths are all swept
+	for n := 65216 - 40; n <= 65216; n++ {
+		lengths = append(lengths, n)
+	}
+	lengths = append(lengths, 32768, 60000, 65000)
 	for _, n := range lengths {
 		variants := []int{0}
 		if n%32 == 0 || n%32 == 1 || n%32 == 31 {
@@ -132,6 +139,14 @@ func runC20(c *core.Ctx) {
 				c.Distinctf("len%d:registered", n)
 				// near misses
 				miss := map[string]string{"append-a": x + "a", "append-0-a": x + "\x00a", "empty": ""}
+				if n <= 4200 {
+					// a registered name that differs from the requested one by a multiple of 256 bytes in length
+					miss["plus-256-bytes"] = x + string(bytes.Repeat([]byte{'a'}, 256))
+					miss["plus-512-bytes-after-zeros"] = x + string(append(make([]byte, 511), 'a'))
+					if n > 256 {
+						miss["minus-256-bytes"] = x[:n-256]
+					}
+				}
 				if n > 0 {
 					b := []byte(x)
 					b[n-1] ^= 0x20
@@ -169,6 +184,22 @@ func runC20(c *core.Ctx) {
 				d["panic"] = pv
 				c.Violation("panic:"+where, "panic: "+pv, d)
 			}
+		}
+	}
+	// names that are protocol strings elsewhere in the stack: served when registered, like any other name
+	if c.Next() {
+		r := c.CaseRng()
+		for _, sname := range SpecialStrings {
+			if len(sname) > 0 && sname[len(sname)-1] == 0 {
+				continue
+			}
+			c.Eval(1)
+			_, cerr, eerr := reqLen(sname, r, []string{sname, "decoy.example"})
+			if cerr != nil || eerr != nil {
+				c.Violation("registered-refused:protocol-string", fmt.Sprintf("a request for a registered origin whose name is a protocol string elsewhere (%q) was not served: %v %v", sname, cerr, eerr), map[string]any{"name": core.Hex([]byte(sname))})
+				continue
+			}
+			c.Class("served_registered")
 		}
 	}
 	c.Exhaustive(fmt.Sprintf("origin name lengths 0..%d", L))
